@@ -606,8 +606,13 @@ func genEnd(t *rapid.T, kind string, label string) int64 {
 		case 2:
 			v += rapid.Int64Range(0, 999999999).Draw(t, label+"Ns")
 		}
-	default:
+	case k == 8:
 		v = rapid.Int64().Draw(t, label+"Any")
+	default:
+		// landmarks of the value space: the int64 extremes and the instants whose float64
+		// interpretation is an infinity
+		v = rapid.SampledFrom([]int64{math.MinInt64, math.MinInt64 + 1, math.MaxInt64 - 1, math.MaxInt64,
+			numLoImage() - 1, numLoImage(), numLoImage() + 1, numHiImage() - 1, numHiImage(), numHiImage() + 1, -1, 0}).Draw(t, label+"Landmark")
 	}
 	return v
 }
